@@ -179,7 +179,7 @@ func instrumentDir(dir, outDir, virtDir string, harness bool, replace map[string
 			}
 			continue
 		}
-		r := &rewriter{fset: fset, info: info, file: p.name, stats: stats}
+		r := &rewriter{fset: fset, info: info, file: p.name, stats: stats, harness: harness}
 		r.file_(p.f)
 		if !r.changed && !harness {
 			continue
@@ -207,6 +207,7 @@ func instrumentDir(dir, outDir, virtDir string, harness bool, replace map[string
 }
 
 type rewriter struct {
+	harness bool
 	fset    *token.FileSet
 	info    *types.Info
 	file    string
@@ -373,6 +374,20 @@ func (r *rewriter) node(n ast.Node) ast.Node {
 			return r.call("Recv", r.site(x), x.X)
 		}
 	case *ast.CallExpr:
+		if sel, ok := x.Fun.(*ast.SelectorExpr); ok {
+			if pk, ok := sel.X.(*ast.Ident); ok && pk.Name == "time" && !r.harness {
+				switch sel.Sel.Name {
+				case "After":
+					r.stats["time.After"]++
+					return r.call("After", x.Args...)
+				case "Sleep":
+					r.stats["time.Sleep"]++
+					return r.call("SleepFor", append([]ast.Expr{r.site(x)}, x.Args...)...)
+				case "NewTimer", "NewTicker", "Tick", "AfterFunc":
+					fatal("%s: time.%s has no rule in the instrumenter (timers must be under the scheduler's clock)", r.pos(x), sel.Sel.Name)
+				}
+			}
+		}
 		if id, ok := x.Fun.(*ast.Ident); ok && id.Name == "close" && len(x.Args) == 1 {
 			r.stats["close"]++
 			return r.call("Close", r.site(x), x.Args[0])
